@@ -88,8 +88,82 @@ func ruleC12Methods(p *Prog, a *Anchors, r *Report) {
 					}
 					return (isTypeOfRecv(bo.X) && isCtxType(bo.Y)) || (isTypeOfRecv(bo.Y) && isCtxType(bo.X))
 				})
-				if guarded {
+				// … or the test is a predicate of the package over the receiver's type (`!reachesContextMethod(current.Type(), name)`)
+				var pred *ssa.Function
+				if !guarded && ctxType != nil {
+					Guarded(in, func(cond ssa.Value, pol bool) bool {
+						pc, ok := cond.(*ssa.Call)
+						if !ok || pol || pc.Common().StaticCallee() == nil || !p.InPkg(pc.Common().StaticCallee()) {
+							return false
+						}
+						for _, arg := range pc.Common().Args {
+							if mi, isMI := arg.(*ssa.MakeInterface); isMI {
+								arg = mi.X
+							}
+							if tc, isC := arg.(*ssa.Call); isC && tc.Common().StaticCallee() != nil && p.extName(tc.Common().StaticCallee()) == "(reflect.Value).Type" && p.VN(tc.Common().Args[0]) == p.VN(recv) {
+								pred = pc.Common().StaticCallee()
+							}
+						}
+						return false
+					})
+				}
+				exact, ptr, emb := guarded, false, false
+				if pred != nil {
+					seenF := map[*ssa.Function]bool{}
+					var scan func(g *ssa.Function, d int)
+					scan = func(g *ssa.Function, d int) {
+						if g == nil || g.Blocks == nil || seenF[g] || d > 3 {
+							return
+						}
+						seenF[g] = true
+						for _, gb := range g.Blocks {
+							for _, gi := range gb.Instrs {
+								switch x := gi.(type) {
+								case *ssa.BinOp:
+									if x.Op == token.EQL || x.Op == token.NEQ {
+										for _, side := range []ssa.Value{x.X, x.Y} {
+											if mi, isMI := side.(*ssa.MakeInterface); isMI {
+												side = mi.X
+											}
+											if isLoadOfGlobal(side, ctxType) {
+												exact = true
+											}
+										}
+									}
+								case *ssa.Call:
+									if x.Common().IsInvoke() && x.Common().Method.Name() == "Elem" {
+										ptr = true
+									}
+									if cal := x.Common().StaticCallee(); cal != nil && p.InPkg(cal) {
+										scan(cal, d+1)
+									}
+								case *ssa.Field:
+									if n := structOf(x.X.Type()); n != nil && n.Obj().Name() == "StructField" && fieldName(x.X.Type(), x.Field) == "Anonymous" {
+										emb = true
+									}
+								case *ssa.FieldAddr:
+									if n := structOf(x.X.Type()); n != nil && n.Obj().Name() == "StructField" && fieldName(x.X.Type(), x.Field) == "Anonymous" {
+										emb = true
+									}
+								}
+							}
+						}
+					}
+					scan(pred, 0)
+				}
+				if exact {
 					r.OK(key, p.InstrPos(in), "methods are looked up only on values that are not a Context (whose %v writes its receiver)", writers)
+					// the method set of *Context, and of a struct that embeds a Context, contains the same methods
+					if ptr {
+						r.OK(p.FuncName(f)+":MethodByName:nor-behind-a-pointer", p.InstrPos(in), "the test follows pointers (Elem) before it compares the type")
+					} else {
+						r.Bad(p.FuncName(f)+":MethodByName:nor-behind-a-pointer", p.InstrPos(in), "the test compares the receiver's type with Context itself only: a *Context (ctx[\"self\"] = &ctx, Globals[\"conf\"] = &set.Globals) has %v in its method set as well, the method is looked up before pointers are followed, and {%% set r = self.Update(extra) %%} writes the caller's map or the set's Globals", writers)
+					}
+					if emb {
+						r.OK(p.FuncName(f)+":MethodByName:nor-embedded", p.InstrPos(in), "the test looks into embedded fields (StructField.Anonymous)")
+					} else {
+						r.Bad(p.FuncName(f)+":MethodByName:nor-embedded", p.InstrPos(in), "the test compares the receiver's type with Context itself only: a struct that embeds a Context (type Page struct{ pongo2.Context; … }) has %v promoted into its method set, and {%% set r = page.Update(extra) %%} writes the embedded map — the caller's", writers)
+					}
 				} else {
 					r.Bad(key, p.InstrPos(in), "the resolver offers templates the methods of every value it walks through, also of a Context — whose exported method(s) %v write the receiver: {%% set a = user.Update(extra) %%} changes the caller's nested Context, {%% set b = site.Update(pongo2) %%} a Context kept in the set's Globals, for every later rendering", writers)
 				}
